@@ -534,7 +534,7 @@ class SV:
     """Symbolic real value n / prod(d).  c is the Fraction when the value is a known constant.
     t (taint) is True when a Python/numpy float took part in computing the value."""
 
-    __slots__ = ("n", "d", "c", "t", "_abs", "_cmpc")
+    __slots__ = ("n", "d", "c", "t", "_abs", "_cmpc", "_absof")
     numpy_scalar_mode = False  # broadcast list/tuple operands like a numpy scalar (advanced.py)
 
     def __init__(self, n, d=(), c=None, t=False):
@@ -718,6 +718,7 @@ class SV:
             pass
         e = self.e
         r = SV(z3.If(e >= 0, e, -e), (), None, self.t)
+        r._absof = self  # lets a harness look through the library's final abs()
         self._abs = r
         return r
 
